@@ -8,7 +8,9 @@ import (
 	"encoding/hex"
 	"fmt"
 	"math/rand/v2"
+	"path"
 	"sort"
+	"strings"
 	"sync"
 	"testing/synctest"
 	"time"
@@ -234,16 +236,16 @@ func (s *Sim) Violate(prop, clause, class, format string, a ...any) {
 	if class == "" {
 		class = clause
 	}
-	if s.Known[clause+"/"+class] {
+	if entry, ok := s.isKnown(clause + "/" + class); ok {
 		s.Logf("KNOWN-FINDING %s/%s/%s %s", prop, clause, class, d)
 		s.mu.Lock()
 		if s.KnownHits == nil {
 			s.KnownHits = map[string]int{}
 			s.KnownWhat = map[string]string{}
 		}
-		s.KnownHits[clause+"/"+class]++
-		if s.KnownWhat[clause+"/"+class] == "" {
-			s.KnownWhat[clause+"/"+class] = d
+		s.KnownHits[entry]++
+		if s.KnownWhat[entry] == "" {
+			s.KnownWhat[entry] = d
 		}
 		s.mu.Unlock()
 		return
@@ -252,6 +254,22 @@ func (s *Sim) Violate(prop, clause, class, format string, a ...any) {
 	s.mu.Lock()
 	s.Viol = append(s.Viol, Violation{Property: prop, Clause: clause, Detail: d, Class: class, Seq: seq})
 	s.mu.Unlock()
+}
+
+// isKnown matches a clause/class key against the known-finding list; entries
+// may use * as a wildcard (path.Match syntax) inside the class part.
+func (s *Sim) isKnown(key string) (entry string, ok bool) {
+	if s.Known[key] {
+		return key, true
+	}
+	for pat := range s.Known {
+		if strings.ContainsAny(pat, "*?") {
+			if m, _ := path.Match(pat, key); m {
+				return pat, true
+			}
+		}
+	}
+	return "", false
 }
 
 func (s *Sim) Violations() []Violation {
